@@ -24,8 +24,8 @@ func init() {
 			}
 			return jobs
 		},
-		Budget: map[string]time.Duration{"quick": 4 * time.Minute, "thorough": 40 * time.Minute},
-		Bounds: map[string]interface{}{"step_lemma_input_bytes": "0..4 quick / 0..6 thorough, all 256 values per byte", "stream_input_bytes": "0..2 quick / 0..3 thorough", "modes": []string{"file", "line"}},
+		Budget:  map[string]time.Duration{"quick": 4 * time.Minute, "thorough": 40 * time.Minute},
+		Bounds:  map[string]interface{}{"step_lemma_input_bytes": "0..4 quick / 0..6 thorough, all 256 values per byte", "stream_input_bytes": "0..2 quick / 0..3 thorough", "modes": []string{"file", "line"}},
 		Outside: []string{"inputs longer than the stated number of symbolic bytes (the step lemma covers any first token of up to that length from position 0 with arbitrary lexer flags)"},
 	})
 }
